@@ -82,7 +82,11 @@ txt += ("\nLessons that were turned into input classes everywhere they apply: in
         "labels sitting exactly on the boundary of a narrower integer type with both signs (+-128, +-32768), classical / commuting-term models with few distinct local\n"
         "eigenvalues, product BASIS states embedded in a complete manifold (one-hot tensors: the support of a tensor is not its sector), strongly truncating two-site TDVP\n"
         "with long steps, dead-end nodes in operator graphs, callables that return one reused buffer, augmenting paths through more than 65536 vertices, and scalar\n"
-        "functions applied to near-cancelling differences (which exposed defect F13: norm() returned NaN there).\n\n"
+        "functions applied to near-cancelling differences (which exposed defect F13: norm() returned NaN there);\n"
+        "from round 11 (a reduced round of 10 properties, 1 missed at first): unrolled automaton graphs are simplified on a copy and compared again (C17); the nine\n"
+        "other changes -- non-zero leading labels, empty slices in the sparse matrix form, uncrossed physical legs in the density step, masked initial blocks, a\n"
+        "generalised single-input test, a shared adjacency list edited by the cover routine, children sorted in place, a lookup key with the left charge beyond 512\n"
+        "tails -- were caught at the first try by classes added in earlier rounds.\n\n"
         "Note on the repository suite: `test_krylov.py::test_eigh_krylov` fails in about 2 % of runs on the unchanged tree (12 of 600 seeded replays of its body, the\n"
         "same number before and after fix `3c1fa1a`): its tolerance on the second Ritz value is statistical. It is unrelated to any change made here.\n")
 d = open('/verif/DESIGN.md').read()
